@@ -510,4 +510,8 @@ func init() {
 		HarnessSpec{Name: "VerifH_gzip_conc", Concurrent: true, StepsQ: 40000000, StepsT: 40000000, Covers: []string{"two-compressions"}})
 	ext("C13", "HTTP client streams (every read partition, as under C06) with the byte pool scribbled over between two receives, as a concurrent request would do",
 		HarnessSpec{Name: "VerifH_http_recv_stream", Covers: []string{"clean-eof", "truncated"}})
+
+	ext("C18", "calls to a PROXIED backend (real RegisterConn + createConnHandler, in-memory backend stream under the engine / real grpc.Server natively, goroutine model with context bound 1): the four streaming shapes, succeeding and failing backend, interceptors + stats handler on and off",
+		HarnessSpec{Name: "VerifH_proxy_intercept", Concurrent: true, Covers: []string{"options-off", "unary-interceptor", "stream-interceptor", "failing"}})
+	replaceOutside("C18", "proxied handlers over a real backend", "per-message payload stats events of proxied streams")
 }
